@@ -515,12 +515,8 @@ SUP_OVER: Mechanism = ("superior-overlaps", "C03-F7", superior_overlaps)
 # in /repo: no input class is attached to them any more, their witnesses are replayed as regression tests
 
 MECHANISMS: Dict[str, List[Mechanism]] = {
-    "anchoring-genes": [
-        ("lookup-scan-loses-neighbour", "C03-F12", lookup_scan_loses_neighbour),
-    ],
     "neighbourhood": [("ring-closes", "C03-F5", ring_closes)],
     "no-unexpected-exception": [
-        ("gene-at-0-with-origin-spanning-gene", "C03-F8", zero_start_with_spanning_gene),
         ("wrap-prone", "C03-F6", some_chain_wrap_prone),
     ],
     "core-smallest-span": [("wrap-prone", "C03-F6", wrap_prone_own)],
@@ -566,9 +562,9 @@ FINDING_IDS = sorted({owner for entries in MECHANISMS.values() for _, owner, _ i
 #  case touch at all, decided from the input only (expected anchors and chains of the oracle)
 # ---------------------------------------------------------------------------------------------
 
+# C03-F8 / C03-F12 (both faces of the gene lookup Record.get_cds_features_within_location) were repaired in /repo:
+# the classes "gene-at-0-with-origin-spanning-gene" and "lookup-scan-loses-neighbour" label nothing any more
 CASE_PRIORITY = (
-    "gene-at-0-with-origin-spanning-gene",
-    "lookup-scan-loses-neighbour",
     "wrap-prone",
     "ring-closes",
     "superior-overlaps-over-origin",
